@@ -70,4 +70,8 @@ SPECS = {
             "real": ["Histogram.Add/MarshalJSON, NewHistogramReporter, Buckets.UnmarshalText"], "stub": ["the source of results and of rendering instants (tape)"],
             "not_simulated": ["report -type=hist[...] / -buckets flag plumbing of the report command: cmd engine (when built)"],
             "assumptions": ["latencies are never below the first bound (the property's precondition)"]},
+    "C06": {"jobs": [{"engine": "attack", "scenario": "exchange-C06", "race": False, "quick": 30000, "thorough": 3000000}],
+            "rule": "one evaluation = one simulated attack of 1..6 sequential exchanges (one worker) through the real hit()/net/http.Client over a fake transport: per exchange a generated target (methods incl. odd-case ones, 0..6 headers with arbitrary key case / repeated keys / Host, bodies 0..70000 bytes, 1 in 25 malformed URLs), a response chain of 0..4 redirects plus a final response (status 100..599, 0..5 headers, bodies 0..200000 bytes in tape-chosen chunks, (n>0,EOF)), and faults: transport error on any hop, redirect-policy refusal, body read error at any offset, fake time passing before the response and between chunks; non-trivial = at least one fault fired; distinct = distinct event-log hashes",
+            "real": ["Attacker.hit, Target.Request, Redirects policy, MaxBody, ChunkedBody, net/http.Client"], "stub": ["http.RoundTripper, response bodies, targeter, pacer, clock (synctest)"],
+            "assumptions": ["on failed exchanges only 'error non-empty and code outside [200,400)' is asserted (byte counts are not: weaker reading)", "req.Host is judged only for a header key spelled exactly Host", "intermediate redirect bodies belong to net/http and are not judged"]},
 }
